@@ -171,6 +171,22 @@ class CGenerator:
     def visit_IdentifierType(self, n: c_ast.IdentifierType) -> str:
         return " ".join(n.names)
 
+    def _visit_constant_expr(self, n: c_ast.Node) -> str:
+        """Generates an operand of a slot that takes a conditional expression
+        (enumerator value, bit-field width, case label, designator, alignment,
+        static assertion): a comma expression or an assignment can only have
+        been written there in parentheses.
+        """
+        return self._parenthesize_if(n, lambda d: isinstance(d, c_ast.Assignment))
+
+    def _visit_full_expr(self, n: c_ast.Node) -> str:
+        """Generates a full expression of a statement (condition, for clause,
+        return value): a statement expression '({...})' keeps its parentheses.
+        """
+        if isinstance(n, c_ast.Compound):
+            return self._visit_expr(n)
+        return self.visit(n)
+
     def _visit_expr(self, n: c_ast.Node) -> str:
         match n:
             case c_ast.InitList():
@@ -190,7 +206,7 @@ class CGenerator:
         else:
             s = self._generate_decl(n)
         if n.bitsize:
-            s += " : " + self.visit(n.bitsize)
+            s += " : " + self._visit_constant_expr(n.bitsize)
         if n.init:
             s += " = " + self._visit_expr(n.init)
         return s
@@ -230,7 +246,7 @@ class CGenerator:
         return self._generate_struct_union_enum(n, name="enum")
 
     def visit_Alignas(self, n: c_ast.Alignas) -> str:
-        return "_Alignas({})".format(self.visit(n.alignment))
+        return "_Alignas({})".format(self._visit_constant_expr(n.alignment))
 
     def visit_Enumerator(self, n: c_ast.Enumerator) -> str:
         if not n.value:
@@ -242,7 +258,7 @@ class CGenerator:
             return "{indent}{name} = {value},\n".format(
                 indent=self._make_indent(),
                 name=n.name,
-                value=self.visit(n.value),
+                value=self._visit_constant_expr(n.value),
             )
 
     def visit_FuncDef(self, n: c_ast.FuncDef) -> str:
@@ -288,7 +304,7 @@ class CGenerator:
     def visit_Return(self, n: c_ast.Return) -> str:
         s = "return"
         if n.expr:
-            s += " " + self.visit(n.expr)
+            s += " " + self._visit_full_expr(n.expr)
         return s + ";"
 
     def visit_Break(self, n: c_ast.Break) -> str:
@@ -306,7 +322,7 @@ class CGenerator:
     def visit_If(self, n: c_ast.If) -> str:
         s = "if ("
         if n.cond:
-            s += self.visit(n.cond)
+            s += self._visit_full_expr(n.cond)
         s += ")\n"
         s += self._generate_stmt(n.iftrue, add_indent=True)
         if n.iffalse:
@@ -317,13 +333,13 @@ class CGenerator:
     def visit_For(self, n: c_ast.For) -> str:
         s = "for ("
         if n.init:
-            s += self.visit(n.init)
+            s += self._visit_full_expr(n.init)
         s += ";"
         if n.cond:
-            s += " " + self.visit(n.cond)
+            s += " " + self._visit_full_expr(n.cond)
         s += ";"
         if n.next:
-            s += " " + self.visit(n.next)
+            s += " " + self._visit_full_expr(n.next)
         s += ")\n"
         s += self._generate_stmt(n.stmt, add_indent=True)
         return s
@@ -331,7 +347,7 @@ class CGenerator:
     def visit_While(self, n: c_ast.While) -> str:
         s = "while ("
         if n.cond:
-            s += self.visit(n.cond)
+            s += self._visit_full_expr(n.cond)
         s += ")\n"
         s += self._generate_stmt(n.stmt, add_indent=True)
         return s
@@ -341,13 +357,13 @@ class CGenerator:
         s += self._generate_stmt(n.stmt, add_indent=True)
         s += self._make_indent() + "while ("
         if n.cond:
-            s += self.visit(n.cond)
+            s += self._visit_full_expr(n.cond)
         s += ");"
         return s
 
     def visit_StaticAssert(self, n: c_ast.StaticAssert) -> str:
         s = "_Static_assert("
-        s += self.visit(n.cond)
+        s += self._visit_constant_expr(n.cond)
         if n.message:
             s += ","
             s += self.visit(n.message)
@@ -355,12 +371,12 @@ class CGenerator:
         return s
 
     def visit_Switch(self, n: c_ast.Switch) -> str:
-        s = "switch (" + self.visit(n.cond) + ")\n"
+        s = "switch (" + self._visit_full_expr(n.cond) + ")\n"
         s += self._generate_stmt(n.stmt, add_indent=True)
         return s
 
     def visit_Case(self, n: c_ast.Case) -> str:
-        s = "case " + self.visit(n.expr) + ":\n"
+        s = "case " + self._visit_constant_expr(n.expr) + ":\n"
         for stmt in n.stmts:
             s += self._generate_stmt(stmt, add_indent=True)
         return s
@@ -395,7 +411,7 @@ class CGenerator:
             if isinstance(name, c_ast.ID):
                 s += "." + name.name
             else:
-                s += "[" + self.visit(name) + "]"
+                s += "[" + self._visit_constant_expr(name) + "]"
         s += " = " + self._visit_expr(n.expr)
         return s
 
@@ -546,7 +562,7 @@ class CGenerator:
                             if modifier.dim_quals:
                                 nstr += " ".join(modifier.dim_quals) + " "
                             if modifier.dim is not None:
-                                nstr += self.visit(modifier.dim)
+                                nstr += self._visit_expr(modifier.dim)
                             nstr += "]"
                         case c_ast.FuncDecl():
                             if i != 0 and isinstance(modifiers[i - 1], c_ast.PtrDecl):
